@@ -27,7 +27,10 @@ def dimensions(tier):
 
 
 def cases(tier):
-    return [{'st': s, 'cmd': c, 'vols': v, 'uid': u} for u in (0, 1000) for v in VOLS for c in CMDS for s in STATES]
+    out = [{'st': s, 'cmd': c, 'vols': v, 'uid': u} for u in (0, 1000) for v in VOLS for c in CMDS for s in STATES]
+    # a volume whose mount point merely EXTENDS the text of $HOME (/home/u-usb next to HOME=/home/u): no special treatment
+    out += [{'st': s, 'cmd': 'put', 'vols': 'home-prefix', 'uid': u} for u in (0, 1000) for s in STATES]
+    return out
 
 
 def populate(W, base, uid, vol, tag):
@@ -41,7 +44,47 @@ def populate(W, base, uid, vol, tag):
     return td
 
 
+def run_home_prefix(c):
+    uid, st, V = c['uid'], c['st'], '/home/u-usb'
+    W = scen.base_world(mounts=['/', V], uid=uid, cwd=V + '/w')
+    W.dir(V + '/w').file(V + '/w/new', 'to be trashed\n')
+    phys = None
+    if st == 'sticky':
+        W.dir(V + '/.Trash', mode=0o1777)
+        phys = V + '/.Trash'
+    elif st.startswith('nonsticky'):
+        W.dir(V + '/.Trash', mode={'nonsticky': 0o777, 'nonsticky-private': 0o700, 'nonsticky-setgid': 0o2777}[st])
+        phys = V + '/.Trash'
+    elif st.startswith('symlink'):
+        W.dir(V + '/.real', mode=0o1777 if st == 'symlink-sticky' else 0o777).link(V + '/.Trash', '.real')
+        phys = V + '/.real'
+    elif st == 'file':
+        W.file(V + '/.Trash', 'x')
+    td = populate(W, phys, uid, V, 'hp') if phys else None
+    with cell.Sandbox(W.spec()) as sb:
+        before = sb.snapshot()
+        r = sb.run(['trash-put', 'new'], cwd=V + '/w', now='2024-06-06T06:06:06')
+        after = sb.snapshot()
+    detail = {'exit': r.exit, 'err': r.err[-400:]}
+    dims = 'st=%s|cmd=put|home-prefix-volume' % st
+    in_alt = bool(world.under(after, '%s/.Trash-%d/files/new' % (V, uid)))
+    in_top = bool(td and world.under(after, td + '/files/new'))
+    if st == 'sticky':
+        ok = in_top
+        return {'verdict': 'ok' if ok else 'viol', 'sig': 'C08|secure-top-not-used|cmd=put|home-prefix-volume', 'klass': 'secure:used' if ok else 'secure-not-used',
+                'nontrivial': 'used|' + dims, 'detail': detail}
+    sub_b, sub_a = world.under(before, phys or V + '/.Trash'), world.under(after, phys or V + '/.Trash')
+    if sub_b != sub_a:
+        return {'verdict': 'viol', 'sig': 'C08|insecure-top-modified|cmd=put|st=%s|home-prefix-volume' % ('symlink' if 'symlink' in st else st), 'klass': 'insecure-modified',
+                'nontrivial': 'mod|' + dims, 'detail': detail}
+    if not in_alt or r.exit != 0:
+        return {'verdict': 'viol', 'sig': 'C08|put-did-not-fall-through|st=%s|home-prefix-volume' % st, 'klass': 'no-fallthrough', 'nontrivial': 'nofall|' + dims, 'detail': detail}
+    return {'verdict': 'ok', 'klass': 'insecure:ignored', 'nontrivial': 'ignored|' + dims, 'detail': detail}
+
+
 def run_case(c):
+    if c['vols'] == 'home-prefix':
+        return run_home_prefix(c)
     uid = c['uid']
     mounts = ['/'] + (['/mnt/v0'] if c['vols'] == 'v0+v1' else []) + ['/mnt/v1'] + (['/mnt/v2'] if c['vols'] == 'v1+v2' else [])
     W = scen.base_world(mounts=mounts, uid=uid, cwd='/mnt/v1/w')
